@@ -13,7 +13,7 @@ the interner returns) is proved over the interner model of XrayModel/Lex.lean in
 import XrayProofs.Scope
 import XrayProofs.Closure
 import XrayModel.ScopeRun
-import XrayProofs.CompileSim
+import XrayProofs.CompileProg
 namespace XrayModel.C03
 open XrayModel.Scope XrayModel.Core XrayModel.ScopeRun
 
@@ -315,15 +315,29 @@ environment) and cell closures (template + cells resolved by `from_spec`), and t
 the addresses, this would give the contents), with a fuel-existential statement because hoisted lambda
 declarations and parameter declarations spend fuel the named evaluator does not.
 
-PROVED (`compile_correct_partial`): the function-free fragment — no function declarations, no lambdas, no computed
-callees; variables (with shadowing), literals, tuples, arrays, item access, calls of bound non-function values, the
+PROVED (`compile_correct_partial`, for whole programs; `compile_correct_partial_expr` for expressions): the
+function-free fragment — no function declarations, no lambdas, no computed callees; variables (with shadowing), literals, tuples, arrays, item access, calls of bound non-function values, the
 strict natives and `display` (the short-circuiting `if`/`and`/`or`/`if_error`/`is_error` are left out: only their
 dispatch lemmas are missing, the proof is the same as for `display`): parsing + compiling such an expression in a
 root scope creates no cell, and evaluating the compiled expression on the cell machine, in an activation whose cells
 hold the values of the named environment under the compile-time name→cell map, gives for every fuel, configuration,
 tail flag and state exactly the named evaluator's outcome (value, error value, violation, stuck, out of fuel) and
-the same state (output lines, call counter). -/
-theorem compile_correct_partial (cfg : Core.Cfg) (e : Core.Expr) (hok : CellRun.exprOK e = true) (cf1 cf2 : Nat)
+the same state (output lines, call counter).  For a whole program of `let`s: the compiled program run from the root
+template ends, for every fuel and configuration (depth limit not 0: the root activation itself is checked against
+it), in the same state and the same outcome as `Core.runProgram`, and every binding (latest declaration of each
+name) holds the same value in its cell. -/
+theorem compile_correct_partial (cfg : Core.Cfg) (ds : List Core.Decl) (hok : CellRun.declsOK ds = true) (cf : Nat)
+    (root : Scope) (hc : compileProgram cf (CellRun.ofDecls ds) = .ok root) (hdl : cfg.depthLimit ≠ some 0)
+    (fuel : Nat) :
+    (Core.runProgram fuel cfg ds).2 = (CellRun.runRoot fuel cfg root).2 ∧
+    match (Core.runProgram fuel cfg ds).1, (CellRun.runRoot fuel cfg root).1 with
+    | .ok fr, .ok rfr => fr.self = none ∧ CellRun.FrRel fr.env root.vars rfr
+    | .error r, .error r' => r' = CellRun.cr r
+    | _, _ => False :=
+  CellRun.compile_correct_program cfg ds hok cf root hc hdl fuel
+
+/-- the expression level of the same fragment, in any root-like scope and any related activation -/
+theorem compile_correct_partial_expr (cfg : Core.Cfg) (e : Core.Expr) (hok : CellRun.exprOK e = true) (cf1 cf2 : Nat)
     (cur : Scope) (rok : CellRun.RootOK cur) (p c : XE × Scope)
     (hp : parseExpr cf1 [] cur (CellRun.ofExpr e) = .ok p) (hc : compileExpr cf2 [] p.2 p.1 = .ok c) :
     c.2 = cur ∧
@@ -332,5 +346,10 @@ theorem compile_correct_partial (cfg : Core.Cfg) (e : Core.Expr) (hok : CellRun.
         = (CellRun.cr (Core.eval fuel cfg fr e tail st).1, (Core.eval fuel cfg fr e tail st).2) := by
   obtain ⟨h1, -, h3⟩ := CellRun.compile_run_expr cfg e hok cf1 cf2 cur rok p c hp hc
   exact ⟨h1, fun fuel fr rfr tail st hs hrel => (h3 fuel fr rfr tail st hs hrel).1⟩
+
+/-- the fragment is not empty and the model runs: a program with shadowing, a tuple, display -/
+example :
+    CellRun.declsOK [.letD "x" (.int 1), .letD "y" (.call "display" [.call "add" [.var "x", .int 2]]),
+                     .letD "x" (.tup [.var "x", .var "y"])] = true := by decide
 
 end XrayModel.C03
